@@ -227,10 +227,13 @@ func c06RoundTrip(propIdx int, pairs [][2][]byte, codec string) string {
 		if len(pairs) == 1 && codec == "json" {
 			tag = "-" // documented: a lone tagged value returns untagged
 		}
+		if tag == "" {
+			tag = "-" // no reference at all and the nil reference both mean "no language"
+		}
 		found := false
 		for _, g := range got {
 			gt := string(g.Ref)
-			if g.Ref == ap.NilLangRef {
+			if g.Ref == ap.NilLangRef || gt == "" {
 				gt = "-"
 			}
 			if gt == tag {
@@ -433,6 +436,11 @@ func init() {
 				}
 				c.Count(T{"members": bytesToInts(s)}, true)
 				c.Tag("oracle/list-members-without-id")
+			}
+			if i%4 == 0 {
+				// a single value whose language reference is the zero value (LangRefValue{Value: ...}, no tag at all)
+				c06Oracle(c, (pi+4)%len(c06Props), [][2][]byte{{[]byte(""), s}}, "json")
+				c06Oracle(c, (pi+4)%len(c06Props), [][2][]byte{{[]byte(""), s}}, "gob")
 			}
 			if i%7 == 0 {
 				p1 := [][2][]byte{{[]byte(c.R.Pick(c06Tags)), s}}
